@@ -334,6 +334,101 @@ def run_worker(case: dict) -> Outcome:
     return out
 
 
+# ----------------------------------------------------------------------------- expiry while the worker is saturated
+
+
+@st.composite
+def saturated_case(draw, broker):
+    """The worker is at its tasks_limit (consumption paused) when a message with a short time-to-live arrives; it expires before a
+    slot frees.  It is then an expired message like any other: not executed, dead-lettered."""
+    busy = draw(st.sampled_from([3.0, 4.0]))
+    ttl = draw(st.sampled_from([1, 2]))
+    at = draw(st.sampled_from([0.3, 0.6, 0.9]))
+    # every slot is taken by a long job of queue q0; the short-lived message arrives on q1 (or q0), where another message may already be
+    # waiting for a slot in the worker's hands (its consumer paused, its prefetch window not full)
+    tl = draw(st.sampled_from([1, 1, 2, 3]))
+    q = draw(st.sampled_from(["q0", "q1", "q1"]))
+    actor = {"q0": "a0", "q1": "a1"}[q]
+    jobs = [{"id": f"busy{i}" if i else "busy", "actor": "a0", "queue": "q0", "retries": 0, "store_result": False,
+             "attempts": [{"k": "ret", "v": 0, "sleep": busy}], "enqueue_at": 0.0} for i in range(tl)]
+    jobs += [{"id": "t0", "actor": actor, "queue": q, "ttl": ttl, "retries": 0, "store_result": False,
+              "attempts": [{"k": "ret", "v": 1, "sleep": 0.0}], "enqueue_at": at},
+             {"id": "live", "actor": actor, "queue": q, "retries": 0, "store_result": False,
+              "attempts": [{"k": "ret", "v": 2, "sleep": 0.0}], "enqueue_at": draw(st.sampled_from([0.1, 0.1, at + 0.1]))}]
+    case = {"broker": broker, "seed": draw(st.integers(0, 2**16)), "converter": "basic",
+            "actors": [{"name": "a0", "queue": "q0", "shape": "plain"}, {"name": "a1", "queue": "q1", "shape": "plain"}], "policy": None,
+            "worker": {"tasks_limit": tl}, "jobs": jobs, "horizon": busy + 12.0}
+    if broker != "mem":
+        case["lat"] = draw(st.lists(st.sampled_from([0.0, 0.001]), max_size=8))
+    return case
+
+
+def run_saturated(case: dict) -> Outcome:
+    out = Outcome()
+
+    def settled(tr):
+        pr = tr.env.probe()
+        return not any(p.kind in ("waiting", "held") for v in pr.values() for p in v)
+
+    handed: list = []  # (id, t) whenever a consumer's consume() returns a message to the worker
+
+    def hook(trace, worker):
+        mb = trace.conn.message_broker
+        try:
+            real = object.__getattribute__(mb, "_real")
+        except AttributeError:
+            real = mb
+        orig = real.get_consumer
+
+        def get_consumer(*a, **k):
+            c = orig(*a, **k)
+            inner = c.consume
+
+            async def consume():
+                r = await inner()
+                handed.append((r[0].id_, trace.env.loop.time()))
+                return r
+
+            c.consume = consume
+            return c
+
+        real.get_consumer = get_consumer
+
+    try:
+        tr = scenario.run_case(case, settled=settled, hook=hook)
+    except (vclock.StepLimit, vclock.Deadlock) as e:
+        out.inconclusive = True
+        out.info["watchdog"] = str(e)
+        return out
+    if tr.run_error is not None:
+        out.v("worker-died", f"Worker.run() raised {tr.run_error!r}")
+    busy = tr.execs_of("busy")
+    key, payload, params = tr.enqueued["t0"]
+    tjob = scenario.job_of(case, "t0")
+    expiry = vclock.secs(params.timestamp) + tjob["ttl"]
+    ex = tr.execs_of("t0")
+    places = sorted(p.kind for p in tr.final.get("t0", []))
+    if not busy or busy[0].t1 is None or busy[0].t1 < expiry + 0.2:
+        out.cls("not-saturated-long-enough")
+        return out
+    tag = f"job with ttl {tjob['ttl']}s enqueued at {tr.enqueue_t['t0']:.3f} (expiry {expiry:.3f}) while the only slot was taken until {busy[0].t1:.3f}"
+    # "at the moment it would be delivered": the moment the consumer hands it to the worker.  A message the worker received while it
+    # was live and that then waited for a slot past its expiry was delivered in time (what the worker does with it is not judged);
+    # one that the consumer hands over after the expiry is an expired delivery
+    slack = sum(case.get("lat", [])) + 1e-6
+    late = [t for i, t in handed if i == "t0" and t > expiry + slack]
+    if late:
+        out.v("expired-delivered", f"{tag}: the consumer handed it to the worker at {late[0]:.6f}, after its expiry"
+              + (f"; the actor ran at {ex[0].t0:.6f}" if ex else ""), broker=case["broker"], saturated=True)
+    elif not any(i == "t0" for i, _ in handed) and places != ["dead"]:
+        out.v("expired-not-dead", f"{tag}: never handed to the worker, final places {places}", broker=case["broker"], saturated=True)
+    if not tr.execs_of("live"):
+        out.v("live-not-executed", f"job without ttl never ran; places {[p.kind for p in tr.final.get('live', [])]}", broker=case["broker"])
+    out.nontrivial = True
+    out.cls("broker-" + case["broker"], "expires-while-saturated")
+    return out
+
+
 def _t(b):
     return lambda: ttl_case(b)
 
@@ -366,5 +461,8 @@ CHECK = Check(
         SubCheck("worker-mem", _w("mem"), run_worker, quick=10, thorough=300),
         SubCheck("worker-redis", _w("redis"), run_worker, quick=10, thorough=300),
         SubCheck("worker-amqp", _w("amqp"), run_worker, quick=10, thorough=300),
+        SubCheck("saturated-mem", lambda: saturated_case("mem"), run_saturated, quick=4, thorough=100),
+        SubCheck("saturated-redis", lambda: saturated_case("redis"), run_saturated, quick=4, thorough=100),
+        SubCheck("saturated-amqp", lambda: saturated_case("amqp"), run_saturated, quick=4, thorough=100),
     ],
 )
